@@ -15,6 +15,11 @@ CHAIN_NOTE = ("Chain.tla composes Minter.tla and Distributor.tla at block level 
               "Bounds: 3 minter x 3 distributor configurations, <= 2 (quick) / 3 (thorough) blocks, fees to the fee collector, one governance update, export at every point after the first block. "
               "No Tendermint: ABCI calls are made directly; TLC, the Json module and the harness projection are trusted.")
 TEXT = {
+    "C16": {
+        "technique": "TLA+ spec Upgrade.tla: the v1.2.0 upgrade as a function on legacy-format states (LockedPreserved, HistoryPreserved, SolventAfter, AllOrNothing, AccountsKeepAmounts, ParamsPreserved checked by TLC over the enumerated pre-states); every pre-state is written to a real store in the legacy format (v2 proto types, x/params subspaces) and the real migrators and v120 functions are run on it, the complete post-state compared with the model",
+        "level": "Model checking over the pre-upgrade state space (presence / absence of the hard-coded owner, pool and vesting type, locked in {sum-1, sum, sum+1, 2 sum}, sent / withdrawn histories, pre-existing pools with the new names, other owners using the renamed type, lineage traces, shifted accounts of every kind, legacy minter and distributor parameters) with conformance of the real upgrade code on every enumerated pre-state.",
+        "note": "Amounts in whole C4E x 10^6; calendar shifts (AddDate) are constants computed for the harness epoch 2030-01-01. The x/upgrade plan machinery, module version map and ICA initialisation are not driven (stated as not covered). TLC, the Json module and the harness projection are trusted.",
+    },
     "C01": {
         "technique": "TLA+ spec Chain.tla (supply ledger ghosts minted/burned; SupplyLedger, SupplyOnlyInBlocks, SupplyDeltaIsMintMinusBurn checked by TLC); every transition replayed on the full application (real app.BeginBlocker/EndBlocker, routed messages) with bank supply, the bank total-supply invariant and per-block supply delta compared; vesting and minter stages add per-message supply neutrality",
         "level": "Model checking of the composed block life-cycle plus conformance of the whole application on every enumerated transition: per-block supply delta = scheduled mint - configured burn, supply unchanged by every message (valid or rejected), supply = sum of balances (bank invariant evaluated on the real state after every step).",
